@@ -58,7 +58,9 @@ pub fn run_one(seed: u64, idx: u64, verbose: bool) -> Result<bool, String> {
 }
 
 pub fn main(args: &[String]) {
-    std::panic::set_hook(Box::new(|_| {}));
+    if std::env::var("VH_BACKTRACE").is_err() {
+        std::panic::set_hook(Box::new(|_| {}));
+    }
     match args[0].as_str() {
         "fuzz" => {
             let seed: u64 = args[1].parse().unwrap();
